@@ -805,17 +805,43 @@ func ruleTrailerLayout(c *Check, p *Program, rule string) {
 	var sum *ssa.Call
 	var wr *ssa.CallCommon
 	var wrIn ssa.Instruction
-	allInstrs(cw, func(in ssa.Instruction) {
-		if cc, ok := isBuiltinCall(in, "append"); ok && len(cc.Args) == 2 && isFourZeros(cc.Args[1]) {
-			em = in.(ssa.Value)
+	emIsPut := false
+	scan := func(fn *ssa.Function) {
+		em, sum, wr, wrIn, emIsPut = nil, nil, nil, nil, false
+		allInstrs(fn, func(in ssa.Instruction) {
+			if cc, ok := isBuiltinCall(in, "append"); ok && len(cc.Args) == 2 && isFourZeros(cc.Args[1]) {
+				em = in.(ssa.Value)
+			}
+			// or the first four bytes of the buffer filled with PutUint32(buf, 0)
+			if ci, ok := in.(ssa.CallInstruction); ok && isBinaryLE(ci, "PutUint32") {
+				if k, isK := constUint(leValueArg(ci)); isK && k == 0 {
+					args := ci.Common().Args
+					if sl, isS := args[len(args)-2].(*ssa.Slice); isS && sl.Low == nil && sl.High != nil {
+						if h, isH := constUint(sl.High); isH && h == 4 {
+							em, emIsPut = sl, true
+						}
+					}
+				}
+			}
+			if call, ok := in.(*ssa.Call); ok && calleeIs(call, pkgXXH, "XXHZero.Sum") {
+				sum = call
+			}
+			if cc, ok := isSinkWrite(in); ok {
+				wr, wrIn = cc, in
+			}
+		})
+	}
+	scan(cw)
+	if em == nil && wr == nil {
+		// the trailer may be written by a helper CloseW ends with
+		for _, g := range deepFuncs(cw, 1)[1:] {
+			scan(g)
+			if em != nil && wr != nil {
+				c.Funcs[fname(g)] = true
+				break
+			}
 		}
-		if call, ok := in.(*ssa.Call); ok && calleeIs(call, pkgXXH, "XXHZero.Sum") {
-			sum = call
-		}
-		if cc, ok := isSinkWrite(in); ok {
-			wr, wrIn = cc, in
-		}
-	})
+	}
 	ok := em != nil && wr != nil
 	var why []string
 	if em == nil {
@@ -826,8 +852,9 @@ func ruleTrailerLayout(c *Check, p *Program, rule string) {
 	}
 	if ok {
 		// end mark is appended to an empty prefix of the frame buffer
-		app := em.(*ssa.Call)
-		if sl, isS := app.Call.Args[0].(*ssa.Slice); !isS || sl.High == nil {
+		if emIsPut {
+			// buf[:4] filled with a zero word: nothing precedes it
+		} else if sl, isS := em.(*ssa.Call).Call.Args[0].(*ssa.Slice); !isS || sl.High == nil {
 			ok = false
 			why = append(why, "the end mark is not the first thing in the trailer buffer")
 		} else if k, isK := constUint(sl.High); !isK || k != 0 {
